@@ -166,6 +166,51 @@ def _scenarios():
         return (lambda: m.calc_cdist_matrix(df, df)), {"df": df}
     S["CdrLevenshtein.calc_cdist_matrix"] = (tcrm, False)
 
+    def mkset(items):
+        from crosshair.simplestructs import ShellMutableSet
+        st = ShellMutableSet()
+        for it in items:
+            st.add(it)
+        return st
+
+    def util(fn, as_set, concrete=False):
+        def make(sym):
+            from pyrepseq import distance
+            from vlib import symops as so
+            if concrete:
+                items = ["AC", "AA", "CA"]
+                seqs = set(items) if as_set else list(items)
+            else:
+                items = strs(sym, (2, 2, 2), "AC")
+                for i in range(3):
+                    for j in range(i):
+                        sym.assume(so.b_not(hc.str_eq_term(items[i], items[j])))
+                seqs = mkset(items) if as_set else list(items)
+            nb = lambda y: distance.hamming_neighbors(y, "AC")
+            if fn == "find_neighbor_pairs":
+                return (lambda: sorted(tuple(sorted(p)) for p in distance.find_neighbor_pairs(seqs, neighborhood=nb))), {"seqs": seqs}
+            if fn == "find_neighbor_pairs_index":
+                return (lambda: distance.find_neighbor_pairs_index(seqs, neighborhood=nb)), {"seqs": seqs}
+            ref = mkset(items[1:]) if not concrete else set(items[1:])
+            if fn == "calculate_neighbor_numbers":
+                return (lambda: distance.calculate_neighbor_numbers(items, reference=ref, neighborhood=nb)), {"seqs": items, "reference": ref}
+            if fn == "isdist1":
+                return (lambda: distance.isdist1(items[0], ref, neighborhood=nb)), {"reference": ref}
+            if fn == "nndist_hamming":
+                return (lambda: distance.nndist_hamming(items[0], ref, maxdist=3)), {"reference": ref}
+            if fn == "next_nearest_neighbors":
+                return (lambda: sorted(distance.next_nearest_neighbors(items[0], nb, maxdistance=2))), {}
+        return make
+    S["find_neighbor_pairs/list"] = (util("find_neighbor_pairs", False), False)
+    S["find_neighbor_pairs/set"] = (util("find_neighbor_pairs", True), False)
+    S["find_neighbor_pairs/builtin-set"] = (util("find_neighbor_pairs", True, concrete=True), False)
+    S["find_neighbor_pairs_index/list"] = (util("find_neighbor_pairs_index", False), False)
+    S["calculate_neighbor_numbers/set-reference"] = (util("calculate_neighbor_numbers", False), False)
+    S["calculate_neighbor_numbers/builtin-set"] = (util("calculate_neighbor_numbers", False, concrete=True), False)
+    S["isdist1/set-reference"] = (util("isdist1", False), False)
+    S["nndist_hamming/set-reference"] = (util("nndist_hamming", False), False)
+    S["next_nearest_neighbors"] = (util("next_nearest_neighbors", False), False)
+
     def l2c(fn):
         def make(sym):
             from pyrepseq import plotting
@@ -297,6 +342,24 @@ def _replay(name):
                                            cbar_kws=cbar, linkage_kws=link, cluster_kws=clus)
             same = list(before[0]) == list(cbar) and before[1] == link and before[2] == clus
             return same, f"similarity_clustermap modified a caller-supplied option dictionary: cbar_kws={cbar!r}"
+        if name.startswith(("find_neighbor_pairs", "calculate_neighbor_numbers", "isdist1", "nndist_hamming")):
+            items = [inputs.get("s0", "AC"), inputs.get("s1", "AA"), inputs.get("s2", "CA")]
+            nb = lambda y: distance.hamming_neighbors(y, "AC")
+            as_set = name.endswith("set")
+            arg = set(items) if as_set else list(items)
+            ref = set(items[1:])
+            before_arg, before_ref = copy.copy(arg), copy.copy(ref)
+            fn = name.split("/")[0]
+            run = {"find_neighbor_pairs": lambda: sorted(tuple(sorted(p)) for p in distance.find_neighbor_pairs(arg, neighborhood=nb)),
+                   "find_neighbor_pairs_index": lambda: distance.find_neighbor_pairs_index(arg, neighborhood=nb),
+                   "calculate_neighbor_numbers": lambda: list(distance.calculate_neighbor_numbers(items, reference=ref, neighborhood=nb)),
+                   "isdist1": lambda: distance.isdist1(items[0], ref, neighborhood=nb),
+                   "nndist_hamming": lambda: distance.nndist_hamming(items[0], ref, maxdist=3)}[fn]
+            r0 = run()
+            if arg != before_arg or ref != before_ref:
+                return False, f"{name}: the caller's collection was modified: {before_arg!r} -> {arg!r}, reference {before_ref!r} -> {ref!r}"
+            r1 = run()
+            return r0 == r1, f"{name}: {r0!r} then {r1!r}"
         if name not in calls:
             return True, "no real-stack counterpart (wiring scenario)"
         r0 = calls[name]()
